@@ -61,6 +61,20 @@ def _classes(desc, m):
     return cl, nt
 
 
+_SEND_ASSOC = {}
+
+
+def _send_assoc():
+    from engines import syncassoc as E3
+
+    if "a" not in _SEND_ASSOC:
+        _SEND_ASSOC["a"] = E3.mk("requestor", [("1.2.840.10008.5.1.4.1.1.2", "1.2.840.10008.1.2", True, True)])
+    a = _SEND_ASSOC["a"]
+    a.sent.clear()
+    a.acceptor.maximum_length = 0
+    return a
+
+
 def check_roundtrip(ctx, case):
     desc, cid, maxpdu = case["desc"], case["cid"], case.get("max", 0)
     kind = desc["kind"]
@@ -91,6 +105,28 @@ def check_roundtrip(ctx, case):
                 ctx.fail("context-id", f"{kind}:pdv", f"PDV carries context {pc}, asked for {cid}")
             (cmd if v[0] & 1 else data).extend(v[1:])
     cmd, data = bytes(cmd), bytes(data)
+
+    # ---------------------------------------------------------------- the same primitive through the DIMSE provider (it picks the message class)
+    # (a C-CANCEL request is a primitive with MessageIDBeingRespondedTo set; every other request has it None, every response an int incl. 0)
+    try:
+        if desc.get("extras"):
+            raise G.Rejected("extras", None)  # attributes the message type does not transmit (e.g. an ID being responded to on a request) steer send_msg's choice by design
+        a = _send_assoc()
+        a.dimse.send_msg(G.build(desc), cid)
+        cmd2 = bytearray()
+        for p in a.sent:
+            for _pc, v in getattr(p, "presentation_data_value_list", []):
+                if v[0] & 1:
+                    cmd2.extend(v[1:])
+        if bytes(cmd2) != cmd:
+            v2, _f2 = C.parse_command_set(bytes(cmd2))
+            ctx.fail("send-msg-class", f"{kind}:field=0x{v2.get('CommandField', 0):04X}", f"DIMSEServiceProvider.send_msg sent a command set that differs from {kind}'s own encoding: CommandField 0x{v2.get('CommandField', 0):04X}, expected 0x{m.field:04X}; desc={desc}")
+            return
+    except (C.Malformed, G.Rejected):
+        pass
+    except Exception as e:
+        ctx.fail("exception-encode", "send_msg:" + sig.exc_key(e), f"dimse.send_msg raised for {desc}\n{sig.exc_text(e)}")
+        return
 
     # ---------------------------------------------------------------- independent reading of the command set
     try:
